@@ -8,8 +8,14 @@ PROP = {'gen': [],
  'props_module': 'Props.C10',
  'corr_check': 'SNT.Corr.C10Corr.c10_check (model View/ViewModel.v vs surf_n_term::view::{Flex, FlexRef, Container, Frame, ScrollBar, Tag, '
                'Dynamic, Text, Layout::apply_to, FindPath, ViewDeserializer} and the View impls of str, (), RGBA, Option, Either, Image, Glyph)',
- 'level_text': 'Coq theorems over an executable model of View::layout / View::render for trees of the library views.',
- 'level_note': 'Trusted: Coq kernel + vm_compute; hand-written model validated by the correspondence run. No axioms.',
+ 'level_text': 'Coq theorems, by induction over view trees (text, flex, container, frame, scroll bar, tag, dynamic, option/either, fill, '
+               'image, glyph; any constraint with min <= max; both glyph settings): layout returns a tree (no underflow, no division by '
+               'zero, no invalid clamp); text/flex/container/image/glyph/fill sizes lie within the constraint; render with any layout '
+               'tree never panics and changes nothing outside its surface, with layout\'s own tree it completes; every probe leaf is '
+               'handed exactly the window the layout tree records for it; find_path follows the first child containing the position. '
+               'Model tied to the code by a differential run over trees built through constructors, FlexRef and JSON.',
+ 'level_note': 'Trusted: Coq kernel + vm_compute; hand-written model validated by the correspondence run; sums of child extents in '
+               'unbounded N (terminal-sized extents); flex factors dyadic; scroll bar fractions in [0,1]. No axioms (closed).',
  'technique': 'Coq proof (induction over the view tree) + model/implementation correspondence',
  'design_ref': 'DESIGN.md 6.10',
  'n_quick': 2000,
